@@ -121,6 +121,7 @@ def stale_sort_helper(e, a, b):
 
 
 LOOKUP_SCHEMA = 'stale-error:lookup-column-schema-change'
+SUMMARY_ROWSETS = [0]     # how often the row set of a summary table differed (left to C12)
 
 
 def lookup_schema_change(e, a, b, bundle):
@@ -176,12 +177,52 @@ def oracle(e, bundle=None):
   a, b = G.snapshot(e), G.snapshot(f)
   if a == b:
     return None
+  # Which rows a SUMMARY table has is decided by side-effecting formulas (lookupOrAddDerived / setAutoRemove in
+  # `group`), which the property excludes (C12 owns "summary tables are exact group-bys"): where the two engines
+  # disagree on the row set of a summary table, only the rows both have are compared here.
+  meta = a.get('_grist_Tables')
+  if meta:
+    for tid, src in zip(meta['cols']['tableId'], meta['cols']['summarySourceTable']):
+      if src and tid in a and tid in b and a[tid]['ids'] != b[tid]['ids']:
+        SUMMARY_ROWSETS[0] += 1
+        common = [r for r in a[tid]['ids'] if r in set(b[tid]['ids'])]
+        for snap in (a, b):
+          idx = [snap[tid]['ids'].index(r) for r in common]
+          snap[tid] = {'ids': common, 'cols': {c: [v[i] for i in idx] for c, v in snap[tid]['cols'].items()}}
+    if a == b:
+      return None
   kind = classify(e, a, b)
   if kind == 'incremental-differs-from-scratch' and stale_sort_helper(e, a, b):
     kind = SORT_HELPER
   if kind == 'incremental-differs-from-scratch' and lookup_schema_change(e, a, b, bundle):
     kind = LOOKUP_SCHEMA
+  if kind == 'incremental-differs-from-scratch' and summary_helper_raises(e, a, b):
+    kind = SUMMARY_HELPER
   return kind, '; '.join(G.diff_snapshots(a, b))
+
+
+SUMMARY_HELPER = 'summary:helper-raises (C12-helper-raises)'
+
+
+def summary_helper_raises(e, a, b):
+  """True if every differing column belongs to a summary table and some source record's summary helper cell
+  (#summary#<table>) holds an error: the record then stays in its old group (known finding C12-helper-raises)."""
+  import objtypes
+  broken = set()
+  for t in e.tables.values():
+    for cid, col in t.all_columns.items():
+      if cid.startswith('#summary#'):
+        if any(isinstance(col.raw_get(r), objtypes.RaisedException) for r in t.row_ids):
+          broken.add(cid[len('#summary#'):])
+  if not broken:
+    return False
+  bad = set()
+  for t in a:
+    if t not in b or a[t]['ids'] != b[t]['ids']:
+      return False
+    if any(a[t]['cols'][c] != b[t]['cols'].get(c) for c in a[t]['cols']):
+      bad.add(t)
+  return bool(bad) and bad <= broken
 
 
 FLATTEN = 'reflist-flatten-id-read'
@@ -544,3 +585,9 @@ def search(ctx):
         ctx.violation(res[0], res[1], {'history': copy.deepcopy(done), 'bundle': copy.deepcopy(b)})
         break
       done.append(b)
+
+  if SUMMARY_ROWSETS[0]:
+    ctx.bump('oracle:summary-table-row-set-differs (left to C12)', SUMMARY_ROWSETS[0])
+    ctx.notes.append('where incremental and scratch engines disagree on WHICH rows a summary table has (rows are created '
+                     'and removed by the side-effecting formulas of `group`, excluded by the property; C12), only the '
+                     'rows both have are compared: %d such comparisons in this run' % SUMMARY_ROWSETS[0])
